@@ -53,7 +53,8 @@ def case_single(draw, tier):
     N = case["N"]
     case["by"] = draw(st.sampled_from(["L", "fres"]))
     case["L"] = draw(st.one_of(st.integers(1, N), st.sampled_from([1, 2, N, max(1, N // 2)])))
-    case["fbin"] = draw(st.one_of(st.sampled_from([0.0, 0.5, 0.25]), st.floats(0.0, 0.5)))
+    case["fbin"] = draw(st.one_of(st.sampled_from([0.0, 0.5, 0.25]), st.floats(0.0, 0.5), st.floats(0.0, 0.5),
+                                  st.floats(0.5, 1.9), st.sampled_from([0.625, 0.75, 1.0, 1.5])))   # above Nyquist: admissible (warning only)
     if case["by"] == "fres":
         case["fres_jitter"] = draw(st.floats(-0.3, 0.3))     # fres = fs/(L+jitter)
     return case
@@ -92,8 +93,8 @@ def check_bins(res, x, y, fs, cfg, mode, idxs, viol, where):
         Sx = tol.seg_scale(x, D, L, w, cfg["order"])
         Sy = Sx if y is None else tol.seg_scale(y, D, L, w, cfg["order"])
         Sxy = (Sx ** 0.5 * Sy ** 0.5)
-        bx, by, bxy = tol.budget2(L, om, Sx), tol.budget2(L, om, Sy), tol.budget2(L, om, Sxy)
-        b4 = tol.budget4(L, om, Sx, Sy)
+        bx, by, bxy = tol.budget2(L, om, Sx, len(D)), tol.budget2(L, om, Sy, len(D)), tol.budget2(L, om, Sxy, len(D))
+        b4 = tol.budget4(L, om, Sx, Sy, len(D))
         XY = complex(res.XY[j])
         for name, a, b, bud in (("XX", float(res.XX[j]), ref["XX"], bx), ("YY", float(res.YY[j]), ref["YY"], by),
                                 ("ReXY", XY.real, ref["XY"].real, bxy), ("ImXY", XY.imag, ref["XY"].imag, bxy),
@@ -180,6 +181,8 @@ def oracle_single(case):
         worst = check_bins(res, x, y, fs, cfg, mode, [0], viol, "single_bin:" + case["by"])
     labels = ["single:%s,o=%d,%s,by=%s" % (cfg["backend"], cfg["order"], mode, case["by"]), "win:" + cfg["win"],
               "cell:%s,o=%d" % (cfg["backend"], cfg["order"])]
+    if case["fbin"] > 0.5:
+        labels.append("single:above-nyquist")
     return Res(viol, D.size >= 2, labels, {"worst_err_in_eps_L_g_S": worst})
 
 
@@ -244,7 +247,7 @@ PARTS = [
     Part("single", case_single, oracle_single, n_quick=150, n_thorough=1500),
     Part("band", case_band, oracle_band, n_quick=50, n_thorough=300),
 ]
-QUOTAS = {"distinctL>=3": {"quick": 100, "thorough": 2000}, "band:strict-subset": {"quick": 60, "thorough": 1000},
+QUOTAS = {"single:above-nyquist": {"quick": 60, "thorough": 1000}, "distinctL>=3": {"quick": 100, "thorough": 2000}, "band:strict-subset": {"quick": 60, "thorough": 1000},
           "band:empty": {"quick": 3, "thorough": 50}, "win:kaiser": {"quick": 20, "thorough": 400}}
 for _b in ("numba", "numpy"):
     for _o in (-1, 0, 1, 2):
